@@ -191,6 +191,15 @@ def jobs(tier, seed):
         cfg = {'kind': kind, 'rate': 8192 if kind == 'DRR' else 8, 'table': t, 'flows': [0, 1, 0, 1, 1, 0, 0, 1][:m], 'sorts': 'int',
                'burst': [0, 1, 1, 1, 0, 1, 1, 1][:m], 'smax': 2 if kind != 'DRR' else 1600}
         js.append({'harness': 'rr', 'cfg': cfg, 'weight': 60, 'opts': {'max_paths': 20000}})
+    # weight tables without a unit weight (WRR: the allowance is the weight itself; DRR: quantum 1500*w/min(w))
+    for kind, t in (('WRR', {0: 2, 1: 3}), ('WRR', {0: 3, 1: 2}), ('DRR', {0: 2, 1: 3})):
+        cfg = {'kind': kind, 'rate': 8192, 'table': t, 'flows': [0, 0, 0, 1, 1, 1, 1, 0][:8 if kind == 'WRR' else 5], 'sorts': 'int',
+               'burst': [0, 1, 1, 1, 1, 1, 1, 1][:8 if kind == 'WRR' else 5]}
+        if kind == 'DRR':
+            cfg['smax'] = 3200
+        else:
+            cfg['smax'] = 2
+        js.append({'harness': 'rr', 'cfg': cfg, 'weight': 40})
     # declaration order is not the ascending order of the ids
     for kind, t in (('RR', {2: 1, 0: 1, 1: 1}), ('RR', {1: 1, 0: 1}), ('WRR', {1: 2, 0: 1}), ('DRR', {1: 1, 0: 2})):
         cfg = {'kind': kind, 'rate': 8192, 'table': t, 'table_order': list(t.keys()), 'sorts': 'int',
